@@ -37,6 +37,7 @@ type (
 	}
 	EQuant struct {
 		Forall bool
+		Sum    bool
 		Var    string
 		Lo, Hi Expr // inclusive bounds; expanded when constant
 		Body   Expr
@@ -159,6 +160,20 @@ var binPrec = map[string]int{
 
 func (ps *parser) expr(minPrec int) Expr {
 	// quantifiers / let bind loosest
+	if t := ps.peek(); t.k == "id" && t.s == "sum" && ps.toks[ps.p+1].k == "id" {
+		ps.next()
+		v := ps.next().s
+		if !(ps.peek().k == "id" && ps.peek().s == "in") {
+			ps.fail("expected 'in' in sum")
+		}
+		ps.next()
+		lo := ps.expr(6)
+		ps.expect("..")
+		hi := ps.expr(6)
+		ps.expect(":")
+		body := ps.expr(6)
+		return ps.binTail(&EQuant{Sum: true, Var: v, Lo: lo, Hi: hi, Body: body}, minPrec)
+	}
 	if t := ps.peek(); t.k == "id" && (t.s == "forall" || t.s == "exists") && ps.toks[ps.p+1].k == "id" {
 		ps.next()
 		v := ps.next().s
@@ -186,6 +201,10 @@ func (ps *parser) expr(minPrec int) Expr {
 		return &ELet{Name: name, Val: val, Body: body}
 	}
 	lhs := ps.unary()
+	return ps.binTail(lhs, minPrec)
+}
+
+func (ps *parser) binTail(lhs Expr, minPrec int) Expr {
 	for {
 		t := ps.peek()
 		if t.k != "op" {
